@@ -7,6 +7,7 @@ import (
 	"os/exec"
 	"path/filepath"
 	"strings"
+	"syscall"
 	"time"
 
 	"github.com/preslavrachev/gomjml/mjml"
@@ -47,7 +48,7 @@ func buildCLI(dir string) (string, string) {
 }
 
 func runC20(res *Result, tier string, seed int64, replay string) {
-	res.Rule = "the built gomjml binary, one fresh process per case: documents {valid, carousel (random id), head attributes, invalid-attribute, unparsable, empty, missing path, directory} × output {-o file, -s, neither, both, -o into a missing directory} × --debug × --cache × --cache-ttl {absent, 1ns, 0s, -1s, 10m, 2562047h} × --cache-cleanup-interval {absent, 0s, 1ns, 1m, -5s}; observed exit code / stdout / stderr / output-file bytes (pre-existing file holds a sentinel) vs the Lean decision model (driver `cli`) applied to the in-process mjml.Render result with the corresponding options. + path cases (relative paths, '..' through real and symlinked directories, trailing separators, missing components, symlinked files, absolute paths; for the input and for -o) judged against what os.ReadFile / os.WriteFile do with the same strings. Non-trivial = case that reaches the library; distinct by case tuple"
+	res.Rule = "the built gomjml binary, one fresh process per case: documents {valid, carousel (random id), head attributes, invalid-attribute, unparsable, empty, missing path, directory} × output {-o file, -s, neither, both, -o into a missing directory} × --debug × --cache × --cache-ttl {absent, 1ns, 0s, -1s, 10m, 2562047h} × --cache-cleanup-interval {absent, 0s, 1ns, 1m, -5s}; observed exit code / stdout / stderr / output-file bytes (pre-existing file holds a sentinel) vs the Lean decision model (driver `cli`) applied to the in-process mjml.Render result with the corresponding options. + inputs that are not regular files (a named pipe, /dev/stdin fed by a pipe; to standard output and to -o) + path cases (relative paths, '..' through real and symlinked directories, trailing separators, missing components, symlinked files, absolute paths; for the input and for -o) judged against what os.ReadFile / os.WriteFile do with the same strings. Non-trivial = case that reaches the library; distinct by case tuple"
 	dir, err := os.MkdirTemp("", "verif-c20-")
 	if err != nil {
 		res.Disagree(Violation{Sig: "tmpdir", What: err.Error()})
@@ -264,6 +265,7 @@ func runC20(res *Result, tier string, seed int64, replay string) {
 		}
 	})
 	c20Paths(res, bin, dir)
+	c20Streams(res, bin, dir)
 }
 
 // c20Paths: the file named on the command line is the file the operating system resolves — relative paths, "..", symlinked
@@ -356,6 +358,85 @@ func c20Paths(res *Result, bin, dir string) {
 			} else if alphaIDs(string(got)) != alphaIDs(want) {
 				fail("file-bytes", "the output file does not hold the compilation of the file the input path names")
 			}
+		}
+	}
+}
+
+// c20Streams: inputs that are not regular files — a named pipe, /dev/stdin fed by a pipe: "the file's content" is what reading
+// the path yields (os.ReadFile reads to the end of the stream; a size taken from stat would be 0)
+func c20Streams(res *Result, bin, dir string) {
+	src := `<mjml><mj-body><mj-section><mj-column><mj-text>streamed input</mj-text><mj-divider/></mj-column></mj-section></mj-body></mjml>`
+	want, _ := mjml.Render(src)
+	wd := filepath.Join(dir, "streams")
+	os.MkdirAll(wd, 0o755)
+	fail := func(name, sig, what string) {
+		res.Violate(Violation{Sig: sig + "|stream/" + name, Kind: "config", What: what, Input: map[string]interface{}{"case": "stream/" + name, "source": src}})
+	}
+	for _, toFile := range []bool{false, true} {
+		// (a) a named pipe
+		fifo := filepath.Join(wd, "in.fifo")
+		os.Remove(fifo)
+		if err := syscall.Mkfifo(fifo, 0o644); err == nil {
+			go func() {
+				if f, err := os.OpenFile(fifo, os.O_WRONLY, 0); err == nil {
+					f.WriteString(src)
+					f.Close()
+				}
+			}()
+			args := []string{"compile", fifo}
+			out := filepath.Join(wd, "fifo.html")
+			os.Remove(out)
+			if toFile {
+				args = append(args, "-o", out)
+			}
+			cmd := exec.Command(bin, args...)
+			var so, se bytes.Buffer
+			cmd.Stdout, cmd.Stderr = &so, &se
+			done := make(chan error, 1)
+			go func() { done <- cmd.Run() }()
+			var runErr error
+			select {
+			case runErr = <-done:
+			case <-time.After(10 * time.Second):
+				cmd.Process.Kill()
+				runErr = fmt.Errorf("timeout")
+			}
+			res.Case(fmt.Sprintf("stream|fifo|%v", toFile), true)
+			res.Count("streams")
+			got := so.String()
+			if toFile {
+				b, _ := os.ReadFile(out)
+				got = string(b)
+			}
+			if runErr != nil {
+				fail("fifo", "exit-code", fmt.Sprintf("input through a named pipe: the command fails (%v: %s) although reading the path yields a valid document", runErr, short(se.String(), 160)))
+			} else if got != want {
+				fail("fifo", "output-bytes", "input through a named pipe: the output is not the library's result for the content of the pipe")
+			}
+		}
+		// (b) /dev/stdin fed by a pipe
+		args := []string{"compile", "/dev/stdin"}
+		out := filepath.Join(wd, "stdin.html")
+		os.Remove(out)
+		if toFile {
+			args = append(args, "-o", out)
+		}
+		cmd := exec.Command(bin, args...)
+		cmd.Stdin = strings.NewReader(src)
+		var so, se bytes.Buffer
+		cmd.Stdout, cmd.Stderr = &so, &se
+		runErr := cmd.Run()
+		res.Case(fmt.Sprintf("stream|stdin|%v", toFile), true)
+		res.Count("streams")
+		got := so.String()
+		if toFile {
+			b, _ := os.ReadFile(out)
+			got = string(b)
+		}
+		if runErr != nil {
+			fail("dev-stdin", "exit-code", fmt.Sprintf("input /dev/stdin fed by a pipe: the command fails (%v: %s)", runErr, short(se.String(), 160)))
+		} else if got != want {
+			fail("dev-stdin", "output-bytes", "input /dev/stdin fed by a pipe: the output is not the library's result for what was piped in")
 		}
 	}
 }
